@@ -495,6 +495,46 @@ theorem commentText_ok (s : Str) : cOk 0 (commentText s) = true ∧ ∀ x ∈ co
     · rfl
     · simpa using he
 
+theorem ok2_of_cOk (u : Str) : ∀ d, cOk d u = true → ok2 d u = true := by
+  induction u with
+  | nil => intro d _; simp [ok2]
+  | cons c r ih =>
+    intro d h
+    by_cases hc : c = '-'
+    · subst hc
+      simp [cOk] at h
+      obtain ⟨rfl, h⟩ := h
+      simp [ok2, ih 1 h]
+    · simp [cOk, hc] at h
+      simp [ok2, hc, ih 0 h]
+
+theorem endsDash_of_cOk (u : Str) : ∀ d, cOk d u = true → endsDash u = false := by
+  induction u with
+  | nil => intro d _; rfl
+  | cons c r ih =>
+    intro d h
+    cases r with
+    | nil =>
+      by_cases hc : c = '-'
+      · subst hc; simp [cOk] at h
+      · simp [endsDash, hc]
+    | cons y r' =>
+      simp only [endsDash]
+      by_cases hc : c = '-'
+      · subst hc
+        simp only [cOk, if_true, Bool.and_eq_true] at h
+        exact ih 1 h.2
+      · simp only [cOk, hc, if_false] at h
+        exact ih 0 h
+
+/-- the text `comment()` writes contains no `--` and does not end in `-` — every string, no bound -/
+theorem commentText_no_double_hyphen (s : Str) : hasDD (commentText s) = false ∧ endsDash (commentText s) = false := by
+  obtain ⟨hok, _⟩ := commentText_ok s
+  refine ⟨?_, endsDash_of_cOk _ 0 hok⟩
+  have := ok2_of_cOk _ 0 hok
+  rw [ok2_hasDD] at this
+  simpa using this
+
 theorem run_comment_text (u acc : Str) (d : Nat) (hd : d ≤ 1) (stk : List Str) (rd : Bool) (evs : List Event)
     (h : cOk d u = true) (hx : ∀ x ∈ u, xmlChar x = true) :
     ∃ acc', runM ⟨.comment acc d, stk, rd, evs⟩ u = some ⟨.comment acc' 0, stk, rd, evs⟩ := by
